@@ -436,9 +436,25 @@ def _expand_rank_extending(case):
                 tlen = len(tgt) if tgt is not None else (sh.get(p.input[1]) or [None])[0]
                 ra = len(sh.get(p.input[0]) or [])
                 other = n.input[1 - i] if len(n.input) > 1 else None
+                po = prod.get(other) if other else None
+                if po is not None and po.op_type == "Expand":
+                    other = po.input[0]  # the rule removes the Expand on either side: what counts is the rank of the un-expanded operand
                 rb = len(sh.get(other) or []) if other else 0
                 if isinstance(tlen, int) and tlen > max(ra, rb):
                     return True
+    return False
+
+
+def _expand_dynamic_target(case):
+    """An Expand feeding a binary op whose target shape is computed at run time (Shape / Concat / Slice chains over symbolic dims)."""
+    m = M(case)
+    prod = producers(m)
+    c = consts(m)
+    for n in nodes(m, *BINOPS):
+        for x in n.input[:2]:
+            p = prod.get(x)
+            if p is not None and p.op_type == "Expand" and len(p.input) > 1 and c.get(p.input[1]) is None:
+                return True
     return False
 
 
@@ -491,6 +507,7 @@ C05_REGIONS = {
     "materialize_reshape_minus1_with_zero_dim": lambda c: _rule(c, "materialize_reshape_shape_rule") and _reshape_minus1_with_zero_dim(c),
     "dynamic_scatter_shape_with_end": lambda c: _rule(c, "no_op_dynamic_scatter_nd_rule") and _shape_with_end(M(c)),
     "expand_binop_rank_extending": lambda c: _rule(c, "expand_before_binary_op_rules") and _expand_rank_extending(c),
+    "expand_binop_dynamic_target_shape": lambda c: _rule(c, "expand_before_binary_op_rules") and _expand_dynamic_target(c),
     "expand_binop_prelu_data_operand": lambda c: _rule(c, "expand_before_binary_op_rules") and _prelu_data_operand_expanded(M(c)),
     "expand_binop_attribute_dropped": lambda c: _rule(c, "expand_before_binary_op_rules") and _expand_before_attr_op(M(c)),
 }
@@ -575,10 +592,14 @@ def _stepwise_reduction(case, m, feeds, known, max_steps=24):
             opt.fold_constants(folded, onnx_shape_inference=True)
         except Exception:  # noqa: BLE001
             return False
+        try:
+            opt.remove_unused_nodes(folded)  # the pipeline removes dead nodes between passes: a dead second consumer no longer blocks a rule
+        except Exception:  # noqa: BLE001
+            return False
         if folded.SerializeToString() != cur.SerializeToString():
             v, _ = compare.decide(compare.Source(cur), folded, feeds)
             if v.startswith("violation"):
-                return False  # constant folding itself breaks this model: not a rewrite-rule finding
+                return False  # constant folding / dead-code removal itself breaks this model: not a rewrite-rule finding
             cur = folded
         fired = False
         for unit in sorted(C05.rule_units()):
@@ -652,7 +673,30 @@ def ir_version_lt4(case):
     return M(case).ir_version < 4
 
 
+def value_name_defined_in_several_scopes(case):
+    """The same value name is defined (node output or initializer) in two or more graphs of the model - legal in ONNX for disjoint
+    scopes (sibling If branches, branches of different Ifs).  Inlining a constant-condition If then brings both definitions into one graph."""
+    from collections import Counter
+
+    seen = Counter()
+
+    def walk(g):
+        for i in g.initializer:
+            seen[i.name] += 1
+        for n in g.node:
+            for o in n.output:
+                if o:
+                    seen[o] += 1
+            for a in n.attribute:
+                if a.type == onnx.AttributeProto.GRAPH:
+                    walk(a.g)
+
+    walk(M(case).graph)
+    return any(v > 1 for v in seen.values())
+
+
 REGIONS = dict(C05_REGIONS)
+REGIONS["value_name_defined_in_several_scopes"] = value_name_defined_in_several_scopes
 REGIONS["ir_version_lt4"] = ir_version_lt4
 REGIONS["bn_training_mode_unused_stats"] = bn_training_mode_unused_stats
 REGIONS["reduces_to_known_rule_finding"] = reduces_to_known_rule_finding
